@@ -807,7 +807,10 @@ def build_config(ctx, rng, fam, facts, keys, par, specs, workdir):  # noqa: ARG0
 
     pubkinds = [("pub", "pem"), ("pub", "der"), ("cert", "pem"), ("cert", "der"), ("nonca", "pem")]
     cb = {"useIsk": keys["isk"] is not None}
-    for i, n in enumerate(keys["roots"]):
+    written = list(enumerate(keys["roots"]))
+    if rng.random() < 0.4:
+        rng.shuffle(written)  # a mapping has no order: the slot of a root certificate is the number in its key
+    for i, n in written:
         cb[f"rootCertificate{i}File"] = keyfile(n, pubkinds)
     if len(set(keys["roots"])) == len(keys["roots"]) and rng.random() < 0.25 and keys["isk"] is not None:
         pass  # mainRootCertId omitted: found by matching the root private key
